@@ -93,6 +93,7 @@ def statement_range(src, selector, body_lo, body_hi, rx):
 
 def build_block(src, selector, rx, opts, sections, emitter):
     import extract as X
+    X.CURRENT_FILE[0] = src.rel
     start, ob, end, kind, hdr = src.locate_fn(selector)
     if ob < 0:
         raise X.ExtractError(f"{selector}: no body")
